@@ -52,8 +52,8 @@ from simkit.rng import seed_globals, unit  # noqa: E402
 from simkit.world import InvalidScenario, Monitor, Violation, result, run_sim  # noqa: E402
 
 PROPERTY = "C18"
-RUNS = {"quick": 10000, "thorough": 1_000_000}
-WALL = {"quick": 45, "thorough": 1500}
+RUNS = {"quick": 6000, "thorough": 1_000_000}
+WALL = {"quick": 50, "thorough": 1500}
 BATCH = {"quick": 100, "thorough": 400}
 RULE = (
     "each case is one generated history run on the real engine over a chaos mesh (keyed per-message delays, "
@@ -94,6 +94,7 @@ EXPECTED_PROBES = [
     "probe.dup_delivered", "probe.reordered_on_link", "probe.concurrent_pair", "probe.transitive_pair",
     "probe.crdt_converged_all", "probe.self_merge", "probe.chain_forward", "probe.lww_tie_physical_logical",
     "probe.orset_concurrent_add_remove", "probe.store_key_learned_by_gossip", "probe.store_converged_all",
+    "probe.orset_nonstring_elements_through_dict", "probe.store_learned_key_then_local_update",
     "fault.partition", "fault.loss", "fault.pause",
 ]
 SHRINK_SKIP = ("klass", "crdt", "variant", "n_nodes")
@@ -173,7 +174,7 @@ def gen_crdt(rng):
           "faults": _gen_faults(rng, n, horizon), "clock_models": _gen_clock_models(rng, n)}
     if kind == "orset":
         variant = rng.choice(["full", "full", "add-only", "private-remove", "private-remove"])
-        sc["elem"] = rng.choice(["str", "str", "str", "str", "int", "mixed"]) if variant == "full" else "str"
+        sc["elem"] = rng.choice(["str", "str", "int", "mixed"])
     if kind == "lww":
         variant = rng.choice(["hlc", "manual", "manual"])
     sc["variant"] = variant
@@ -230,6 +231,7 @@ def gen_store(rng):
         variant = rng.choice(["full", "add-only", "add-only"])
     keys = [f"k{i}" for i in range(rng.randint(1, 3))]
     sc = {"klass": "store", "crdt": kind, "variant": variant, "n_nodes": n, "seed": rng.getrandbits(48),
+          "elem": rng.choice(["str", "int"]) if kind == "orset" else "str",
           "net": _gen_net(rng), "clock_models": _gen_clock_models(rng, n),
           "keys": keys, "precreate": rng.random() < 0.5,
           "gossip": [rng.choice([0.05, 0.1, 0.25]) for _ in range(n)], "horizon": horizon}
@@ -921,6 +923,8 @@ def run_crdt(sc):
     }
     for v in sorted(rw.vias):
         counters[f"via.{v}"] = 1
+    counters["probe.orset_nonstring_elements_through_dict"] = int(
+        sc["crdt"] == "orset" and sc.get("elem", "str") != "str" and bool(rw.vias & {"dict", "dict2"}) and pr["merges"] > 0)
     counters.update(w.fault_counters())
     klass = f"crdt/{sc['crdt']}/{sc.get('variant', 'default')}" + (f"/{sc['elem']}" if sc.get("elem", "str") != "str" else "")
     nsets = len({nd.seen for nd in rw.nodes})
@@ -1136,7 +1140,7 @@ def run_store(sc):
                 raise InvalidScenario("n")
             value = op["n"]
         else:
-            hop["x"] = value = f"e{op.get('x', 0)}"
+            hop["x"] = value = int(op.get("x", 0)) if sc.get("elem") == "int" else f"e{op.get('x', 0)}"
         if not isinstance(op.get("t"), (int, float)) or op["t"] < 0:
             raise InvalidScenario("t")
         evs.append(Event(time=Instant.from_seconds(float(op["t"])), event_type="Write", target=sw.stores[op["node"]],
@@ -1167,9 +1171,12 @@ def run_store(sc):
         "probe.store_converged_all": int(converged and len(sw.updated) >= 2),
         "store_merges": sw.merges, "store_checks": sw.checks, "budget_runs": int(status == "budget"),
         "store_gossip_msgs": sum(s.stats.gossip_sent for s in sw.stores),
+        "probe.store_learned_key_then_local_update": int(any(s.learned and s.name in sw.updated for s in sw.stores)),
+        "probe.orset_nonstring_elements_through_dict": int(sc["crdt"] == "orset" and sc.get("elem") == "int" and sw.merges > 0),
     }
     counters.update(w.fault_counters())
-    klass = f"store/{sc['crdt']}/{sc.get('variant', 'default')}/{'precreated' if sc.get('precreate') else 'learned'}"
+    klass = f"store/{sc['crdt']}/{sc.get('variant', 'default')}/{'precreated' if sc.get('precreate') else 'learned'}" + (
+        "/int" if sc.get("elem") == "int" else "")
     state = repr((klass, sc["n_nodes"], len(sw.keys), converged, any(s.learned for s in sw.stores),
                   w.stats["dups"] > 0, min(sw.merges // 20, 5)))
     return result(sig=sig, msg=msg or "", digest=mon.digest, nontrivial=len(sw.updated) >= 2 and sw.merges >= 1,
